@@ -44,9 +44,10 @@ def build(c):
     if m == "sha256" and p == "hash_memory":
         ws = [w2i(w) for w in x["mem"]]
         ws += [0] * ((-len(ws)) % 4)
+        base = c["pat"][3] if len(c["pat"]) > 3 else MEM
         for k in range(0, len(ws), 4):
-            pre += "  push.%d.%d.%d.%d push.%d mem_storew dropw\n" % (ws[k + 3], ws[k + 2], ws[k + 1], ws[k], MEM + k // 4)
-        ins = [limbs(MEM), limbs(x["len"])]
+            pre += "  push.%d.%d.%d.%d push.%d mem_storew dropw\n" % (ws[k + 3], ws[k + 2], ws[k + 1], ws[k], base + k // 4)
+        ins = [limbs(base), limbs(x["len"])]
         out = [w2l(w) for w in x["out"]]
     elif m == "native" and p == "state_to_digest":
         # [C, B, A, ...]: the state in reverse order, its last element on top
